@@ -309,3 +309,16 @@ Definition cu_seq_model (cb with_body : bool) (script : list Z) : option (nat * 
                     jcount (is_callback 0) (j_log s))
   | None => None
   end.
+
+(* two overlapping executions of one FunctionJob, A = thread 0 returning (7, errA?), B = thread 1
+   returning (42, errB?); abba: B completes first, then A (else A then B).  Returns the visible
+   (status, result) at the end *)
+Definition fn_overlap_model (abba a_fails b_fails : bool) : option (Z * nat) :=
+  let a : fn_outcome nat unit := (7, if a_fails then Some tt else None) in
+  let b : fn_outcome nat unit := (42, if b_fails then Some tt else None) in
+  let ex (t : nat) (o : fn_outcome nat unit) : list (jlabel (fn_outcome nat unit)) :=
+      [JCompute t o; JLock t; JWrite t; JWrite t; JWrite t; JUnlock t; JReturn t] in
+  match jrun (fun _ => 0) fn_cfg jinit (if abba then ex 1 b ++ ex 0 a else ex 0 a ++ ex 1 b) with
+  | Some s => Some (fst (fst (fn_visible 0 s)), snd (fst (fn_visible 0 s)))
+  | None => None
+  end.
